@@ -43,7 +43,11 @@ class PatternEncoderBase(LazyEncoder):
                 settings.existence.patterns if settings.existence is not None else [NodeExistence()])}
 
         # Encode
-        super().set_settings(settings)
+        try:
+            super().set_settings(settings)
+        except InvalidDesignVariables as e:
+            # E.g. only one connection possibility: this pattern encoder is not a usable encoding for these settings
+            raise InvalidPatternEncoder(f'Invalid pattern encoder {self!r}: {e}')
 
     def _try_settings(self, settings: MatrixGenSettings):
         self._settings = settings
